@@ -1,7 +1,7 @@
-SPECIFICATION SimSpec
+SPECIFICATION MCSpec
 CONSTANTS
-  MaxLen = 12
-  Alphabet <- AlphaS
+  MaxLen = 2
+  Alphabet <- AlphaB2
   Emitting = TRUE
 INVARIANT Grammar FoldsAgree ScanAgrees
 CHECK_DEADLOCK FALSE
